@@ -286,7 +286,11 @@ def run_default(ctx: C.Ctx):
     # ---- histories over a nested class shared by several roots, Union holders with a Meta of their own, lazily reached holders
     rule = ctx.rule
     c12_hist.run_all(ctx)
-    c12_tag.run_lazy_load(ctx)
+    lreqs, lpend = [], []
+    c12_tag.run_lazy_load(ctx, lreqs, lpend)
+    if ctx.model_available and lreqs:
+        for (case, out, built), o_ in zip(lpend, ctx.driver.run(lreqs)):
+            compare_load(ctx, 'cascade:lazy-load:load-model', case, out, o_, built)
     ctx.rule = rule + ' ' + c12_hist.RULE + ' ' + c12_tag.RULE
 
 
@@ -608,7 +612,7 @@ def run_v1(ctx: C.Ctx):
     c12_hist.run_shared_v1(ctx, v1streams.sub_rng(ctx, 'v1-shared'))
     ctx.rule = rule + ' ' + c12_hist.RULE_V1
     # ---- a nested class with a tag / tag key / unknown-key policy of its own (generator of its own)
-    c12_tag.run_tagged_v1(ctx, v1streams.sub_rng(ctx, 'v1-tagged'))
+    c12_tag.run_tagged_v1(ctx, v1streams.sub_rng(ctx, 'v1-tagged'), reqs, pend)
     ctx.rule += ' ' + c12_tag.RULE_V1
     if ctx.model_available:
         outs = ctx.driver.run(reqs)
